@@ -148,14 +148,11 @@ example : openedPositions 2 1 2 20 101 0 (List.replicate 15 [7]) =
 example : rsEncode (10 : K) 4 [1, 2] = [3, 21, 100, 82] := by decide
 example : rsEncode (10 : K) 4 (lc 5 [1, 2] 7 [3, 4]) =
     lc 5 (rsEncode (10 : K) 4 [1, 2]) 7 (rsEncode (10 : K) 4 [3, 4]) := by decide
-/-- a one-level Brakedown code: `m = 2`, `A : 2×1`, base code of length 2, `B : 2×1`, `m_ext = 5` -/
-def exPP : BParams K :=
-  { m := 2, mExt := 5, aDims := [(2, 1)], bDims := [(2, 1)], start := [2], stop := [4],
-    aMats := [⟨[[(0, 3), (1, 4)]]⟩], bMats := [⟨[[(0, 1), (1, 2)]]⟩] }
-example : shapeOk exPP = true := by decide
-example : encode exPP [1, 2] = .ok [1, 2, 11, 11, 33] := by decide
-example : encode exPP [1, 2, 3] = .error .encodingError := by decide
-example : encode exPP (lc 5 [1, 2] 7 [3, 4]) = .ok (lc 5 [1, 2, 11, 11, 33] 7 [3, 4, 25, 25, 75]) := by
+-- a one-level Brakedown code (`toyParams`): `m = 2`, `A : 2×1`, base code of length 2, `B : 2×1`
+example : shapeOk (toyParams K) = true := by decide
+example : encode (toyParams K) [1, 2] = .ok [1, 2, 11, 11, 33] := by decide
+example : encode (toyParams K) [1, 2, 3] = .error .encodingError := by decide
+example : encode (toyParams K) (lc 5 [1, 2] 7 [3, 4]) = .ok (lc 5 [1, 2, 11, 11, 33] 7 [3, 4, 25, 25, 75]) := by
   decide
 
 end PCV.C13
